@@ -35,6 +35,7 @@ int main(int argc, char **argv)
         else if (scn.lang == "route") runRoute(scn, out);
         else if (scn.lang == "auth") runAuth(scn, out);
         else if (scn.lang == "copier") runCopier(scn, out);
+        else if (scn.lang == "fs") runFs(scn, out);
         else out.obs << "badlang";
         std::cout << "ORA " << scn.id.toStdString() << " " << out.ora.join(' ').toStdString() << "\n";
         std::cout << "OBS " << scn.id.toStdString() << " " << out.obs.join(' ').toStdString() << std::endl;
